@@ -234,7 +234,14 @@ def r15_4(ctx):
     q.need(len(wrappers) >= 4, 'synchronized() builds %d wrappers' % len(wrappers))
     for c in wrappers:
         args = [ast.unparse(a) for a in c.args] + ['%s=%s' % (k.arg, ast.unparse(k.value)) for k in c.keywords]
-        ok = args[:3] == [P[0], P[1], P[2]] or (args[:2] == [P[0], P[1]] and ('ctx=' + P[2]) in args)
+        # object first; lock and context by position or under their names (`scls` is a class chosen at run time: its
+        # signature is the wrappers' common one, (obj, lock=None, ctx=None))
+        kw = {k.arg: ast.unparse(k.value) for k in c.keywords}
+        pos = [ast.unparse(a) for a in c.args]
+        got = (pos + [None, None, None])[:3]
+        got[1] = got[1] if got[1] is not None else kw.get('lock')
+        got[2] = got[2] if got[2] is not None else kw.get('ctx')
+        ok = got == [P[0], P[1], P[2]]
         ctx.ob('R15.4', 'synchronized:%s-gets-object-lock-context' % sy.callee(c), ok, sy, c,
                '%s(%s): the lock handed in (or travelling with a pickled wrapper) must be the one the wrapper uses, '
                'for every element type alike' % (sy.callee(c), ', '.join(args)))
